@@ -26,8 +26,13 @@ class Dir:
         self.size = 4096
 
 
+class WouldBlockForever(Exception):
+    """open() on a FIFO nobody writes to never returns; modelled as an exception no server code handles."""
+
+
 class File:
-    def __init__(self, data=b"", mode=S_REG, mtime=1000, size=None):
+    def __init__(self, data=b"", mode=S_REG, mtime=1000, size=None, open_err=None):
+        self.open_err = open_err  # stat succeeds but open fails with this errno (deleted / made unreadable in between)
         self.data = data  # bytes, or list of str lines (symbolic friendly)
         self.mode = mode
         self.mtime = mtime
@@ -275,7 +280,11 @@ class MemVFS(_base.VFS_Real):
         if isinstance(n, Dir):
             raise IsADirectoryError(errno.EISDIR, "Is a directory", selector)
         if isinstance(n, Special):
+            if n.mode == S_FIFO:
+                raise WouldBlockForever(selector)
             raise OSError(errno.ENXIO, "No such device or address", selector)
+        if n.open_err is not None:
+            raise OSError(n.open_err, "open failed", selector)
         return MemFile(self, selector, n, mode, errors)
 
 
